@@ -217,6 +217,59 @@ func ChangedErrors() []string {
 	return out
 }
 
+// A FileInfo is a value: what Stat returned describes the file at that moment and keeps saying so (os.FileInfo is a
+// snapshot; callers compare an earlier info with a later one). With RecordInfos on, every info a Stat step returned is
+// kept with what it said; ChangedInfos reports the ones that say something else now.
+var (
+	RecordInfos atomic.Bool
+	infoLogMu   sync.Mutex
+	infoLog     []heldInfo
+)
+
+type heldInfo struct {
+	info fs.FileInfo
+	said string
+	step string
+}
+
+func infoSays(info fs.FileInfo) string {
+	return fmt.Sprintf("%s size=%d mode=%s mtime=%d dir=%v", info.Name(), info.Size(), info.Mode(), info.ModTime().UnixNano(), info.IsDir())
+}
+
+func holdInfo(info fs.FileInfo, step string) {
+	if !RecordInfos.Load() || info == nil {
+		return
+	}
+	defer func() { _ = recover() }()
+	infoLogMu.Lock()
+	if len(infoLog) >= 4096 {
+		infoLog = infoLog[2048:]
+	}
+	infoLog = append(infoLog, heldInfo{info, infoSays(info), step})
+	infoLogMu.Unlock()
+}
+
+// ChangedInfos returns "step: said then -> says now" for every held info whose answers changed, and forgets all.
+func ChangedInfos() []string {
+	infoLogMu.Lock()
+	defer infoLogMu.Unlock()
+	var out []string
+	for _, h := range infoLog {
+		func() {
+			defer func() {
+				if r := recover(); r != nil {
+					out = append(out, fmt.Sprintf("the info returned by %s (%s) panics when asked again: %v", h.step, h.said, r))
+				}
+			}()
+			if now := infoSays(h.info); now != h.said {
+				out = append(out, fmt.Sprintf("the info returned by %s said %q and now says %q", h.step, h.said, now))
+			}
+		}()
+	}
+	infoLog = infoLog[:0]
+	return out
+}
+
 func fillErr(r *Result, err error) {
 	r.Err = Class(err)
 	if err == nil {
@@ -414,6 +467,7 @@ func Exec(fsys hackpadfs.FS, st Step, hs *Handles, mt MTimeSet) (res Result) {
 		}
 		fillErr(&res, err)
 		if err == nil {
+			holdInfo(info, st.String())
 			res.Data = InfoString(info, mt != nil && mt[st.P])
 			if st.P == "." {
 				res.Data = "root " + kindOf(info.Mode())
@@ -599,6 +653,7 @@ func execHandle(f hackpadfs.File, st Step, res *Result) {
 		info, err := f.Stat()
 		fillErr(res, err)
 		if err == nil {
+			holdInfo(info, st.String())
 			res.Data = InfoString(info, false)
 		}
 	case "H.ReadDir":
